@@ -6,8 +6,9 @@ asan      nightly, -Zsanitizer=address, reduced workload, counting allocator com
 tsan      nightly, -Zsanitizer=thread -Zbuild-std, thread engine of C19
 miri      cargo +nightly miri run, tiny workloads (UB / data race / deadlock interpreter)
 memcheck  valgrind memcheck on the `verif` binary, reduced workload
-b64feat   profile `verif` with the library's cargo feature passkey-types/serialize_bytes_as_base64_string
-          (the documented alternative build configuration: byte strings serialise as base64url text)
+b64feat   profile `verif` with the library's cargo features passkey-types/serialize_bytes_as_base64_string
+          (the documented alternative build configuration: byte strings serialise as base64url text) and
+          passkey-types/testable (test-support derives and constructors on public types)
 """
 import json
 import os
@@ -26,6 +27,7 @@ THOROUGH_EXTRA = {p: ["release"] for p in ALL}
 for p, more in {
     "C02": ["b64feat", "memcheck"],
     "C03": ["b64feat"],
+    "C06": ["b64feat"],
     "C07": ["miri"],
     "C12": ["asan", "miri"],
     "C15": ["asan", "miri"],
@@ -37,6 +39,7 @@ for p, more in {
 QUICK_EXTRA = {p: ["release"] for p in ALL}
 QUICK_EXTRA["C02"] += ["b64feat"]
 QUICK_EXTRA["C03"] += ["b64feat"]
+QUICK_EXTRA["C06"] += ["b64feat"]
 
 _built = {}
 
@@ -60,7 +63,7 @@ def build_for(engine, build):
         ok = build("release")
     elif engine == "b64feat":
         ok = build("verif", extra_env={"CARGO_TARGET_DIR": os.path.join(HARNESS, "target-b64")},
-                   extra_args=["--features", "b64bytes"])
+                   extra_args=["--features", "b64bytes,testable"])
     elif engine == "asan":
         ok = build("verif", toolchain="nightly",
                    extra_env={"RUSTFLAGS": "-Zsanitizer=address -Cforce-frame-pointers=yes",
